@@ -47,3 +47,132 @@ theorem own2_default {c : Cmd} (hΓ : Γ2 a g p) (hvg : VG g) (hvp : VP g p)
   rw [this] at hK; exact hK
 
 end NA.C19
+
+namespace NA.C19
+variable {a x : F2} {g : G} {p : Proc} {pc : Nat} {t : Bool}
+
+/-! ### What the git commands do when they do not fail -/
+
+theorem nextHead_of_next {g : G} {d : Dir} {h : Nat} (hn : g.next = some d) (hh : d.head = some h) :
+    g.nextHead = some h := by simp [G.nextHead, hn, hh]
+
+theorem next_isSome_of_head {g : G} {h : Nat} (hh : g.nextHead = some h) : g.next.isSome = true := by
+  unfold G.nextHead at hh
+  cases hn : g.next <;> simp_all
+
+theorem clone_form (hq : (exec .gitClone g p).1.trouble = false) :
+    (exec .gitClone g p).1.nextHead = some g.remote ∧ (exec .gitClone g p).1.remote = g.remote ∧
+    (exec .gitClone g p).2.1.base = g.remote ∧ (exec .gitClone g p).1.store = g.store := by
+  revert hq
+  simp only [exec]
+  (repeat' split) <;> simp_all [G.nextHead]
+
+theorem commit_form (hq : (exec .gitCommitPolicy g p).1.trouble = false) :
+    ∃ h n, g.nextHead = some h ∧ p.spol = some n ∧
+      (exec .gitCommitPolicy g p).1.nextHead = some (g.store.length + 1) ∧
+      polOf (exec .gitCommitPolicy g p).1 (g.store.length + 1) = some n := by
+  revert hq
+  simp only [exec]
+  split
+  · next h n hh hs =>
+    split
+    · simp
+    · intro _
+      refine ⟨h, n, hh, hs, ?_, ?_⟩
+      · rw [snh_head]; simp [next_isSome_of_head hh]
+      · simp [polOf, commitAt_new]
+  · simp
+
+theorem push_form (hq : (exec .gitPush g p).1.trouble = false) :
+    ∃ h, g.nextHead = some h ∧ (exec .gitPush g p).1.remote = h ∧ (exec .gitPush g p).2.1.base = h ∧
+      (exec .gitPush g p).1.store = g.store ∧ (exec .gitPush g p).1.nextHead = some h := by
+  revert hq
+  simp only [exec]
+  split
+  · next h hh =>
+    split
+    · intro _; exact ⟨h, hh, rfl, rfl, rfl, by simpa [G.nextHead] using hh⟩
+    · simp
+  · simp
+
+end NA.C19
+
+namespace NA.C19
+variable {a x : F2} {g : G} {p : Proc} {pc : Nat} {t : Bool}
+
+theorem pull_form (hq : (exec .gitPullMerge g p).1.trouble = false) (hvg : VG g) {n : Nat}
+    (h1 : ∃ h, g.nextHead = some h ∧ polOf g h = some n) (h2 : polOf g p.base = polOf g g.remote) :
+    (∃ h', (exec .gitPullMerge g p).1.nextHead = some h' ∧ polOf (exec .gitPullMerge g p).1 h' = some n) ∧
+    polOf (exec .gitPullMerge g p).1 (exec .gitPullMerge g p).2.1.base =
+      polOf (exec .gitPullMerge g p).1 (exec .gitPullMerge g p).1.remote := by
+  obtain ⟨h, hh, hp⟩ := h1
+  revert hq
+  simp only [exec, hh]
+  split
+  · intro _; exact ⟨⟨h, hh, hp⟩, h2⟩
+  · split
+    · next hne hb =>
+      intro _
+      refine ⟨⟨g.remote, ?_, ?_⟩, ?_⟩
+      · rw [snh_head]; simp [next_isSome_of_head hh]
+      · simp only [polOf, snh_store] at *
+        rw [← h2, ← hb]; exact hp
+      · simp [polOf]
+    · split
+      · simp
+      · next hne hnb hnc =>
+        intro _
+        refine ⟨⟨g.store.length + 1, ?_, ?_⟩, ?_⟩
+        · rw [snh_head]; simp [next_isSome_of_head hh]
+        · simp only [polOf, snh_store, commitAt_new]
+          simp only [polOf] at hp h2
+          split
+          · exact hp
+          · next hx =>
+            simp at hx
+            rw [← h2, ← hx]; exact hp
+        · simp [polOf]
+
+/-- `git pull --quiet` (no strategy): HEAD and origin/master stay in step with the remote's POLICY. -/
+theorem pullPlain_form (hvg : VG g)
+    (h1 : ∃ h, g.nextHead = some h ∧ polOf g h = polOf g g.remote) :
+    ∃ h', (exec .gitPullPlain g p).1.nextHead = some h' ∧
+      polOf (exec .gitPullPlain g p).1 h' = polOf (exec .gitPullPlain g p).1 (exec .gitPullPlain g p).1.remote := by
+  obtain ⟨h, hh, hp⟩ := h1
+  simp only [exec, hh]
+  split
+  · exact ⟨h, hh, hp⟩
+  · split
+    · refine ⟨g.remote, ?_, ?_⟩
+      · rw [snh_head]; simp [next_isSome_of_head hh]
+      · simp [polOf]
+    · exact ⟨h, hh, hp⟩
+
+theorem pullPlain_base (h2 : polOf g p.base = polOf g g.remote) :
+    polOf (exec .gitPullPlain g p).1 (exec .gitPullPlain g p).2.1.base =
+      polOf (exec .gitPullPlain g p).1 (exec .gitPullPlain g p).1.remote := by
+  simp only [exec]
+  (repeat' split) <;> simp_all [polOf]
+
+theorem revert_form (hq : (exec .gitRevert g p).1.edited = false) (hvg : VG g)
+    (h1 : ∃ h, g.nextHead = some h ∧ polOf g h = polOf g g.remote) :
+    ∃ h', (exec .gitRevert g p).1.nextHead = some h' ∧
+      polOf (exec .gitRevert g p).1 h' = polOf (exec .gitRevert g p).1 (exec .gitRevert g p).1.remote := by
+  obtain ⟨h, hh, hp⟩ := h1
+  revert hq
+  simp only [exec, hh]
+  split
+  · intro _; exact ⟨h, hh, hp⟩
+  · next hcond =>
+    intro hq
+    simp at hcond
+    obtain ⟨⟨_, hhash⟩, _⟩ := hcond
+    simp at hq
+    refine ⟨g.store.length + 1, ?_, ?_⟩
+    · rw [snh_head]; simp [next_isSome_of_head hh]
+    · simp only [polOf, snh_store, snh_remote, commitAt_new]
+      rw [commitAt_append hvg.remote]
+      simp only [polOf] at hp
+      rw [← hp, hhash, hq.2]
+
+end NA.C19
